@@ -33,7 +33,8 @@ REQUIRED = {'families': 300, 'families.keyword-specificity': 30, 'calls': 1500, 
             'feature.skip': 50, 'feature.keyword': 100, 'feature.constant': 50, 'feature.method': 100,
             'feature.exclusive': 30, 'feature.hidden': 100, 'feature.varargs': 50, 'feature.kwonly': 30,
             'reach.choose_overload': 1000, 'reach.map_args': 2000, 'reach.get_delegate': 500,
-            'reach.collect_functions': 1000, 'reach._is_specialization_of': 50, 'probes.checked': 1000}
+            'reach.collect_functions': 1000, 'reach._is_specialization_of': 50, 'probes.checked': 1000,
+            'registered.kind-by-flags': 100, 'registered.same-callable-twice': 20}
 
 NAMES = ['x', 'y', 'z', 'w']
 
@@ -114,8 +115,17 @@ def gen_family(rng):
         for _ in range(rng.choice((0, 1, 1, 2, 2, 3))):
             kind = rng.choice(['function', 'function', 'function', 'method', 'extension', 'extension'])
             nk = all_no_kwargs or (mixed_flags and rng.random() < 0.5)
-            layer.append(gen_overload(rng, 'L%dt%d' % (li, t), kind, nk, lazy_ok))
+            o = gen_overload(rng, 'L%dt%d' % (li, t), kind, nk, lazy_ok)
+            if rng.random() < 0.2:
+                o.reg = 'flags'
+            layer.append(o)
             t += 1
+        if layer and rng.random() < 0.06:
+            # the same callable registered a second time: two overloads, neither more specific than the other
+            import copy
+            o = copy.copy(rng.choice(layer))
+            o.twin = True
+            layer.append(o)
         layers.append(layer)
         exclusive.append(bool(layer) and rng.random() < 0.15)
     return layers, exclusive
@@ -267,12 +277,16 @@ class Runner:
         parent = self.base
         for layer, excl in reversed(list(zip(layers, exclusive))):
             ctx = parent.create_child_context()
+            built = {}
             for i, o in enumerate(layer):
-                fn = o.build()
-                if excl and i == 0:
-                    ctx.register_function(fn, exclusive=True)
+                if o.twin:
+                    fn = built[o.tag]
+                    self.rec.count('registered.same-callable-twice')
                 else:
-                    ctx.register_function(fn)
+                    fn = built[o.tag] = o.build()
+                if o.reg == 'flags':
+                    self.rec.count('registered.kind-by-flags')
+                o.register(ctx, fn, exclusive=excl and i == 0)
             parent = ctx
         return parent
 
@@ -599,6 +613,8 @@ def spec_from_desc(d):
                             p.get('hidden'), p['kind']) for p in d['params']]
     spec = fam.OverloadSpec(d['tag'], params, d['kind'], d['no_kwargs'])
     spec.decor_seed = d.get('decor_seed')
+    spec.reg = d.get('reg', 'decor')
+    spec.twin = d.get('twin', False)
     return spec
 
 
